@@ -125,12 +125,17 @@ pub fn cross_namespace_states(tier: &str) -> Vec<State> {
 /// the schema that declared it however many namespace changes lie between it and the derived type.
 pub fn three_namespace_chains(tier: &str) -> Vec<State> {
     let mut out = three_namespace_chains_over(tier, ["http://zv.example/gamma", "http://zv.example/beta", "http://zv.example/alpha"], "");
+    // the start file and the LAST file share one namespace, the middle file has another (core <- billing <- core)
+    out.extend(three_namespace_chains_over(tier, ["http://zv.example/core", "http://zv.example/billing", "http://zv.example/core"], " namespaces-X-Y-X"));
     // the same with namespace URIs that are PREFIXES of one another (the start file has the longest)
     out.extend(three_namespace_chains_over(tier, ["http://zv.example/shop/orders/items", "http://zv.example/shop/orders", "http://zv.example/shop"], " nested-uris"));
     out
 }
 
 fn three_namespace_chains_over(tier: &str, uris: [&'static str; 3], tag: &str) -> Vec<State> {
+    // when the first and the last file share a namespace, the first cannot IMPORT the last (that would
+    // be an include): it reaches it through the middle file only
+    let first_imports_last = uris[0] != uris[2];
     #[allow(non_snake_case)]
     let NS = uris;
     const FILE: [&str; 3] = ["g.xsd", "b.xsd", "a.xsd"];
@@ -171,7 +176,11 @@ fn three_namespace_chains_over(tier: &str, uris: [&'static str; 3], tag: &str) -
             needs.insert((1, 2));
             // the start file ALWAYS imports both other files (a diamond: alpha is reached directly and
             // through beta); the order of the import statements is varied
-            needs.insert((0, 2));
+            if first_imports_last {
+                needs.insert((0, 2));
+            } else if needs.contains(&(0, 2)) {
+                continue;
+            }
             for (from, to) in needs {
                 files[from].imports.push(Import { ns: NS[to].into(), loc: Some(FILE[to].into()) });
             }
@@ -238,6 +247,11 @@ fn states(tier: &str) -> Vec<State> {
         }
     }
     out.extend(three_namespace_chains(tier));
+    // long one-file chains declared derived-first: every base is read ahead inside the reading of its derived type
+    for d in [17usize, 33] {
+        let chain: Vec<Link> = (0..=d).map(|i| Link { in_b: false, before_base: i > 0, content: "attributes" }).collect();
+        out.push(State { label: format!("chain of depth {d} in one file, fully derived-first"), depth: d as u32, set: build(&chain, false, false) });
+    }
     // a component declared FIRST whose element reference cannot be resolved (its namespace is imported
     // without a schemaLocation, so the reader gives that one component up), followed by a chain declared
     // derived-first whose base carries the local name of the failed reference
